@@ -386,6 +386,7 @@ func Main(checks map[string]*Check) {
 	sort.Slice(total.Violations, func(i, j int) bool { return total.Violations[i].Key < total.Violations[j].Key })
 	exit := 0
 	nKnown, nNew := 0, 0
+	unreproduced := 0
 	var lines []string
 	for _, v := range total.Violations {
 		if k, ok := known[id+"\x00"+v.Key]; ok {
@@ -418,17 +419,36 @@ func Main(checks map[string]*Check) {
 				doc["note"] = "does not reproduce as a single case in a fresh process; reproduces after the preceding evaluations of its enumeration shard (state carried between requests)"
 				b, _ := json.MarshalIndent(doc, "", " ")
 				os.WriteFile(rp, b, 0o644)
-				cmd := exec.Command(os.Args[0])
-				cmd.Env = append(os.Environ(), "KMV_REPLAY="+rp, "GOMAXPROCS=2")
-				outb, err = cmd.CombinedOutput()
-				code = 0
-				if ee, ok := err.(*exec.ExitError); ok {
-					code = ee.ExitCode()
-				} else if err != nil {
-					code = -1
+				// the runtime itself can be a source of nondeterminism once the code under
+				// test keeps state in it (sync.Pool, goroutine placement): a few attempts,
+				// the later ones on a single P
+				for _, procs := range []string{"2", "1", "1"} {
+					cmd := exec.Command(os.Args[0])
+					cmd.Env = append(os.Environ(), "KMV_REPLAY="+rp, "GOMAXPROCS="+procs)
+					outb, err = cmd.CombinedOutput()
+					code = 0
+					if ee, ok := err.(*exec.ExitError); ok {
+						code = ee.ExitCode()
+					} else if err != nil {
+						code = -1
+					}
+					if code == 1 {
+						break
+					}
 				}
 				if code == 1 {
 					v.What = "[history-dependent: needs the preceding evaluations of shard " + v.Shard + "] " + v.What
+				} else if code == 0 {
+					// observed on the real code during the exhaustive pass, yet neither the
+					// single case nor three re-runs of its shard show it again: the behaviour
+					// depends on something outside the harness's control.  It is still a
+					// violation that happened; say so rather than hide it.
+					doc["mode"], doc["note"] = "unreproduced", "observed once during exploration; not reproduced by replaying the case or re-running its shard (3 attempts)"
+					b, _ := json.MarshalIndent(doc, "", " ")
+					os.WriteFile(rp, b, 0o644)
+					v.What = "[observed during exploration but NOT reproduced on replay: depends on runtime nondeterminism (e.g. pooled or shared state)] " + v.What
+					unreproduced++
+					code = 1
 				}
 			}
 			if code != 1 {
@@ -476,6 +496,7 @@ func Main(checks map[string]*Check) {
 		"classes":                       classNames,
 		"known_findings_matched":        nKnown,
 		"new_violations":                nNew,
+		"violations_not_reproduced":     unreproduced,
 		"shards":                        n,
 	}
 	if len(total.Inexhaustive) > 0 {
